@@ -39,7 +39,7 @@ package plugin
 //@   at call (hash.Hash).Sum#1 assert cap(arg0) == 0 && recv == s.Hash   [C13.iff]
 //@   at call subtle.ConstantTimeCompare#1 assert arg1 == s.Checksum   [C13.iff]
 //@   nopanic [C13.total]
-//@   bounded always [C01.e]
+//@   bounded always [C01.e] [C18.gor]
 //@   wait call io.Copy#1 reads a regular local file into a hash: bounded by the file's size
 //@   modifies hdata, open_files, rd_done
 //@   ensures len(s.Checksum) == 0 ==> result0 == false && result1 == ErrSecureConfigNoChecksum   [C13.err]
@@ -90,7 +90,7 @@ package plugin
 
 //@ func (*Client).Start
 //@   nopanic [C01.d] [C03.d] [C14.nopanic] [C05.nopanic]
-//@   bounded always [C01.e]
+//@   bounded always [C01.e] [C18.gor]
 //@   requires valid_client(c) && valid_reattach(c)
 //@   requires !held(c.l)
 //@   modifies $START_EFFECTS
@@ -210,7 +210,7 @@ package plugin
 //@ func NewRPCClient
 //@   at call yamux.Client#1 assert arg0 == conn && arg1 == nil   [C03.c] [C04.bounded]
 //@   nopanic [C03.d]
-//@   bounded peer-dead [C03.c]
+//@   bounded peer-dead [C03.c] [C18.gor]
 //@   requires conn != nil
 //@   modifies yopens, yaccepts
 //@   loop#1 frame fresh_only
@@ -244,7 +244,7 @@ package plugin
 
 //@ func newGRPCStdioClient
 //@   nopanic [C03.d]
-//@   bounded peer-dead [C03.c]
+//@   bounded peer-dead [C03.c] [C18.gor]
 //@   requires log != nil
 //@   modifies heap_fresh, $LOG
 //@   at call (plugin.GRPCStdioClient).StreamStdio#1 assert arg0 == ctx   [C03.e]
@@ -259,6 +259,7 @@ package plugin
 //@   modifies c.grpcMuxer, fields(c.grpcMuxerOnce), conns_open, $LOG, creg, yopens, yaccepts
 //@   at call dialGRPCConn#1 assert arg0 == c.config.TLSConfig   [C12.wrap] [C14.tls]
 //@   at call newGRPCBroker#1 assert arg1 == c.config.TLSConfig   [C12.wrap] [C14.tls]
+//@   at call newGRPCBroker#1 assert arg2.socketDir == c.unixSocketCfg.socketDir && arg2.Group == c.unixSocketCfg.Group && arg2.TempDir == c.unixSocketCfg.TempDir && arg3 == c.runner   [C07.wire] [C14.wire] [C18.wire]
 //@   at call newGRPCStdioClient#1 assert arg0 == doneCtx   [C03.e]
 //@   at go#3 assert arg1 == c.config.SyncStdout && arg2 == c.config.SyncStderr   [C11.wire-g]
 //@   ensures result1 != nil ==> result0 == nil
@@ -266,7 +267,7 @@ package plugin
 
 //@ func (*Client).Client
 //@   nopanic [C19.total] [C03.d]
-//@   bounded always [C03.c]
+//@   bounded always [C03.c] [C18.gor]
 //@   requires valid_client(c) && valid_reattach(c) && !held(c.l)
 //@   modifies $CLIENT_EFFECTS
 //@   entry a0 := c.address
@@ -340,7 +341,7 @@ package plugin
 
 //@ func (*Client).Kill
 //@   nopanic [C04.idem] [C03.d]
-//@   bounded always [C04.bounded]
+//@   bounded always [C04.bounded] [C18.gor]
 //@   wait call (*sync.WaitGroup).Wait#1 signalled_by logStderr, Start$2, Start$3, Start$4$1, reattach$1: each ends once the process has exited (mode peer-dead after the kill point)
 //@   requires valid_client(c) && valid_reattach(c) && !held(c.l)
 //@   modifies $CLIENT_EFFECTS, removed, waited, grace
@@ -362,7 +363,7 @@ package plugin
 //@ func (*Client).Kill$2
 //@   spawn_inline
 //@   nopanic [C04.idem]
-//@   bounded peer-dead [C04.bounded]
+//@   bounded peer-dead [C04.bounded] [C18.gor]
 //@   requires client != nil && closed != nil
 //@   wait send#1 the channel has capacity 1 and this is its only send: it never blocks
 //@   at send#1 assert chan == closed   [C04.bounded]
@@ -560,7 +561,7 @@ package plugin
 //@ func (*Client).Start$3
 //@   nopanic [C10.total] [C03.d]
 //@   close_once [C20.close1]
-//@   bounded peer-dead [C03.c]
+//@   bounded peer-dead [C03.c] [C18.gor]
 //@   wait send#1 received by Start's select or by the drain goroutine Start$4$1, which Start spawns on every return path once this goroutine exists (obligation (*Client).Start/ensures/C10.drained)
 //@   requires c != nil && c.logger != nil && runner != nil && linesCh != nil && !closed(linesCh)
 //@   modifies heap, wg_count, scan_err, rd_done, hdata, $LOG
@@ -626,7 +627,7 @@ package plugin
 
 //@ func (*MuxBroker).Run
 //@   nopanic [C06.total] [C09.total] [C20.nopanic]
-//@   bounded peer-dead [C09.timer]
+//@   bounded peer-dead [C09.timer] [C18.gor]
 //@   requires m.session != nil && !held(m.Mutex)
 //@   modifies heap, yaccepts, tokens, ackr, pkey, ch_owner, conns_open
 //@   after select#1 set tokens := ite(index == 0, tokens - 1, tokens)
@@ -639,7 +640,7 @@ package plugin
 
 //@ func (*MuxBroker).timeoutWait
 //@   nopanic [C09.total] [C20.nopanic]
-//@   bounded peer-dead [C09.timer]
+//@   bounded peer-dead [C09.timer] [C18.gor]
 //@   requires !held(m.Mutex) && p != nil && p.ch != nil && p.doneCh != nil && !closed(p.ch)
 //@   modifies mapof(m.streams), tokens, conns_open, tw_drained
 //@   after select#2 set tokens := ite(index == 0, tokens + 1, tokens)
@@ -651,7 +652,7 @@ package plugin
 
 //@ func (*MuxBroker).Accept
 //@   nopanic [C06.total] [C03.d] [C20.nopanic]
-//@   bounded peer-dead [C09.timer] [C03.c]
+//@   bounded peer-dead [C09.timer] [C03.c] [C18.gor]
 //@   close_once [C20.close1]
 //@   requires !held(m.Mutex)
 //@   modifies pkey, ch_owner, mapof(m.streams), heap_fresh, tokens, conns_open, firstw
@@ -664,7 +665,7 @@ package plugin
 
 //@ func (*MuxBroker).Dial
 //@   nopanic [C06.total] [C03.d] [C20.nopanic]
-//@   bounded peer-dead [C09.timer] [C03.c]
+//@   bounded peer-dead [C09.timer] [C03.c] [C18.gor]
 //@   requires m.session != nil
 //@   modifies yopens, tokens, firstw, ackr
 //@   ensures result1 == nil ==> result0 != nil && firstw[result0] == id && ackr[result0] == id   [C06.dial]
@@ -696,7 +697,7 @@ package plugin
 
 //@ func serve
 //@   nopanic [C06.total]
-//@   bounded peer-dead [C09.timer]
+//@   bounded peer-dead [C09.timer] [C18.gor]
 //@   modifies nothing
 //@   at call (*rpc.Server).RegisterName#1 assert arg0 == name && arg1 == v   [C06.disp]
 //@   at call (*rpc.Server).ServeConn#1 assert arg0 == conn   [C06.disp]
@@ -716,7 +717,7 @@ package plugin
 //@ func (*dispenseServer).Dispense$1
 //@   spawn_inline
 //@   nopanic [C06.total]
-//@   bounded peer-dead [C09.timer]
+//@   bounded peer-dead [C09.timer] [C18.gor]
 //@   requires d != nil && d.broker != nil && !held(d.broker.Mutex)   [nospawn]
 //@   after call (*MuxBroker).Accept#1 bind acc: Iface := ret0
 //@   at call (*MuxBroker).Accept#1 assert recv == d.broker && arg0 == id   [C06.disp]
@@ -724,7 +725,7 @@ package plugin
 
 //@ func (*RPCClient).Dispense
 //@   nopanic [C06.total] [C14.total] [C03.d]
-//@   bounded peer-dead [C03.c]
+//@   bounded peer-dead [C03.c] [C18.gor]
 //@   requires c.control != nil && c.broker != nil && c.broker.session != nil
 //@   requires forall k: Str :: k in c.plugins ==> c.plugins[k] != nil
 //@   modifies rpc_calls, yopens, tokens, firstw, ackr, heap_fresh
@@ -736,13 +737,13 @@ package plugin
 
 //@ func (*RPCClient).Ping
 //@   nopanic [C03.d]
-//@   bounded peer-dead [C03.c]
+//@   bounded peer-dead [C03.c] [C18.gor]
 //@   requires c.control != nil
 //@   modifies rpc_calls
 
 //@ func (*RPCClient).Close
 //@   nopanic [C03.d] [C04.total]
-//@   bounded peer-dead [C03.c]
+//@   bounded peer-dead [C03.c] [C18.gor]
 //@   requires c.control != nil && c.stdout != nil && c.stderr != nil && c.broker != nil && c.broker.session != nil
 //@   modifies rpc_calls, conns_open, tokens
 //@   after call (*rpc.Client).Call#1 bind quit_err: Iface := ret
@@ -846,6 +847,7 @@ package plugin
 //@   nonblocking
 //@   modifies nothing
 //@   ensures result != nil && fresh(result) && result.streamer == s && result.tls == tls && result.muxer == muxer && result.addrTranslator == addrTranslator && result.doneCh != nil && !closed(result.doneCh) && !held(result.Mutex) && !held(result.dialMutex)   [C07.new] [C12.wrap] [C14.tls]
+//@   ensures result.unixSocketCfg.socketDir == unixSocketCfg.socketDir && result.unixSocketCfg.Group == unixSocketCfg.Group && result.unixSocketCfg.TempDir == unixSocketCfg.TempDir   [C07.new] [C18.wire]
 //@   ensures result.clientStreams != nil && result.serverStreams != nil && (forall k :: !(k in result.clientStreams) && !(k in result.serverStreams))   [C07.new]
 
 //@ func (*GRPCBroker).getClientStream
@@ -872,7 +874,7 @@ package plugin
 
 //@ func (*GRPCBroker).timeoutWait
 //@   nopanic [C09.total] [C20.nopanic]
-//@   bounded peer-dead [C09.timer]
+//@   bounded peer-dead [C09.timer] [C18.gor]
 //@   requires !held(m.Mutex) && p != nil && p.doneCh != nil
 //@   modifies mapof(m.clientStreams)
 //@   ensures !held(m.Mutex)   [C09.balance]
@@ -885,7 +887,7 @@ package plugin
 
 //@ func (*GRPCBroker).Run
 //@   nopanic [C07.total] [C08.total] [C09.total] [C20.nopanic]
-//@   bounded peer-dead [C09.timer]
+//@   bounded peer-dead [C09.timer] [C18.gor]
 //@   requires m.streamer != nil && !held(m.Mutex)
 //@   modifies heap, gkey, gch_owner
 //@   after call (streamer).Recv#1 bind msg := ret0
@@ -897,7 +899,7 @@ package plugin
 
 //@ func (*GRPCBroker).Accept
 //@   nopanic [C07.total] [C08.total] [C03.d] [C20.nopanic]
-//@   bounded peer-dead [C09.timer] [C03.c]
+//@   bounded peer-dead [C09.timer] [C03.c] [C18.gor]
 //@   requires b.muxer != nil && b.streamer != nil && !held(b.Mutex)
 //@   modifies heap, gkey, gch_owner, lsn, files, listens, mux_registered, sent_info
 //@   after call serverListener#1 bind lis0: Iface := ret0
@@ -922,6 +924,7 @@ package plugin
 //@   modifies heap, mapof(b.serverStreams)
 //@   ensures !held(b.Mutex)   [C09.balance]
 //@   ensures result == nil
+//@   ensures closed(p.doneCh)   [C18.gor] [C09.exit]
 
 //@ func (*GRPCBroker).Accept$2$1
 //@   nopanic [C20.nopanic]
@@ -946,7 +949,7 @@ package plugin
 //@ func (*GRPCBroker).listenForKnocks
 //@   dead return#1 defensive check: a message parked under id carries ServiceId id (channel invariant)
 //@   nopanic [C08.total] [C20.nopanic]
-//@   bounded peer-dead [C09.timer]
+//@   bounded peer-dead [C09.timer] [C18.gor]
 //@   wait select#1 the pending's doneCh is closed when the listener is closed (Accept$2) and the knock channel is fed by Run: ends with the listener
 //@   requires b.muxer != nil && b.streamer != nil && !held(b.Mutex) && mux_registered[id]   [C08.listen]
 //@   modifies heap, gkey, gch_owner, mux_knocks, sent_info
@@ -961,7 +964,7 @@ package plugin
 //@ func (*GRPCBroker).knock
 //@   dead return#2 defensive check: a message parked under id carries ServiceId id (channel invariant)
 //@   nopanic [C08.total] [C03.d] [C20.nopanic]
-//@   bounded peer-dead [C09.timer] [C03.c]
+//@   bounded peer-dead [C09.timer] [C03.c] [C18.gor]
 //@   requires b.streamer != nil && !held(b.Mutex)
 //@   modifies heap, gkey, gch_owner, sent_info
 //@   after select#1 bind kmsg := recv0
@@ -971,7 +974,7 @@ package plugin
 
 //@ func (*GRPCBroker).muxDial$1
 //@   nopanic [C08.total] [C03.d] [C20.nopanic]
-//@   bounded peer-dead [C03.c]
+//@   bounded peer-dead [C03.c] [C18.gor]
 //@   requires b != nil && b.muxer != nil && b.streamer != nil && !held(b.Mutex) && !held(b.dialMutex)
 //@   modifies heap, gkey, gch_owner, sent_info, conns_open
 //@   local knocked: Bool := false
@@ -1006,13 +1009,13 @@ package plugin
 
 //@ func (*GRPCBroker).Dial
 //@   nopanic [C07.total]
-//@   bounded peer-dead [C03.c]
+//@   bounded peer-dead [C03.c] [C18.gor]
 //@   requires b.muxer != nil && b.streamer != nil && !held(b.Mutex)
 //@   modifies heap, gkey, gch_owner
 
 //@ func (*GRPCBroker).DialWithOptions
 //@   nopanic [C07.total] [C08.total] [C03.d] [C20.nopanic]
-//@   bounded peer-dead [C09.timer] [C03.c]
+//@   bounded peer-dead [C09.timer] [C03.c] [C18.gor]
 //@   close_once [C20.close1]
 //@   requires b.muxer != nil && b.streamer != nil && !held(b.Mutex)
 //@   modifies heap, gkey, gch_owner
@@ -1052,7 +1055,7 @@ package plugin
 
 //@ func (*GRPCBroker).AcceptAndServe$3
 //@   nopanic [C09.total]
-//@   bounded peer-dead [C09.timer]
+//@   bounded peer-dead [C09.timer] [C18.gor]
 //@   wait select#1 ends when the broker is closed (doneCh, see GRPCBroker.Close) or the run group interrupts it (closeCh)
 //@   requires b != nil && b.doneCh != nil && closeCh != nil
 //@   modifies nothing
@@ -1091,7 +1094,7 @@ package plugin
 
 //@ func (*gRPCBrokerServer).Send
 //@   nopanic [C07.total] [C03.d] [C20.nopanic]
-//@   bounded peer-dead [C09.timer] [C03.c]
+//@   bounded peer-dead [C09.timer] [C03.c] [C18.gor]
 //@   close_once [C20.close1]
 //@   wait select#1 the quit alternative fires when the stream ends (StartStream defers Close) or the broker is closed
 //@   wait recv#1 signalled_by (*gRPCBrokerServer).StartStream$1: every request taken from s.send is answered on its ch (checked there); a request is only enqueued while the pump can still take it or quit is closed
@@ -1100,13 +1103,15 @@ package plugin
 //@   local se_handed: Bool := false
 //@   local se_replied: Bool := false
 //@   after select#1 set se_handed := index == 1
+//@   after select#1 bind ssel: Int := index
+//@   ensures se_handed || ssel == 0   [C07.pump] [C08.pump]
 //@   after recv#1 set se_replied := true
 //@   ensures se_handed ==> se_replied   [C20.send]
 //@   at select#1 assert sent1 != nil && sent1.i == i && sent1.ch != nil && !closed(sent1.ch) && fresh(sent1.ch)   [C07.pump] [C20.send]
 
 //@ func (*gRPCBrokerServer).Recv
 //@   nopanic [C07.total] [C03.d]
-//@   bounded peer-dead [C09.timer] [C03.c]
+//@   bounded peer-dead [C09.timer] [C03.c] [C18.gor]
 //@   wait select#1 the quit alternative fires when the broker is closed; the stream side ends it when the connection dies
 //@   requires s.quit != nil && s.recv != nil
 //@   modifies nothing
@@ -1117,7 +1122,7 @@ package plugin
 
 //@ func (*gRPCBrokerServer).StartStream$1
 //@   nopanic [C07.total] [C20.nopanic]
-//@   bounded peer-dead [C09.timer]
+//@   bounded peer-dead [C09.timer] [C18.gor]
 //@   wait select#1 ends with doneCh (stream context) or quit
 //@   wait send#1 the requester waits for exactly this reply before closing the channel (see Send)
 //@   requires s != nil && s.quit != nil && s.send != nil && stream != nil && doneCh != nil
@@ -1155,7 +1160,7 @@ package plugin
 
 //@ func (*gRPCBrokerClientImpl).Send
 //@   nopanic [C07.total] [C03.d] [C20.nopanic]
-//@   bounded peer-dead [C09.timer] [C03.c]
+//@   bounded peer-dead [C09.timer] [C03.c] [C18.gor]
 //@   close_once [C20.close1]
 //@   wait select#1 the quit alternative fires when the stream ends (StartStream defers Close) or the broker is closed
 //@   wait recv#1 signalled_by (*gRPCBrokerClientImpl).StartStream$1: every request taken from s.send is answered on its ch (checked there); a request is only enqueued while the pump can still take it or quit is closed
@@ -1164,13 +1169,15 @@ package plugin
 //@   local se_handed: Bool := false
 //@   local se_replied: Bool := false
 //@   after select#1 set se_handed := index == 1
+//@   after select#1 bind ssel: Int := index
+//@   ensures se_handed || ssel == 0   [C07.pump] [C08.pump]
 //@   after recv#1 set se_replied := true
 //@   ensures se_handed ==> se_replied   [C20.send]
 //@   at select#1 assert sent1 != nil && sent1.i == i && sent1.ch != nil && !closed(sent1.ch) && fresh(sent1.ch)   [C07.pump] [C20.send]
 
 //@ func (*gRPCBrokerClientImpl).Recv
 //@   nopanic [C07.total] [C03.d]
-//@   bounded peer-dead [C09.timer] [C03.c]
+//@   bounded peer-dead [C09.timer] [C03.c] [C18.gor]
 //@   wait select#1 the quit alternative fires when the broker is closed; the stream side ends it when the connection dies
 //@   requires s.quit != nil && s.recv != nil
 //@   modifies nothing
@@ -1181,7 +1188,7 @@ package plugin
 
 //@ func (*gRPCBrokerClientImpl).StartStream$1
 //@   nopanic [C07.total] [C20.nopanic]
-//@   bounded peer-dead [C09.timer]
+//@   bounded peer-dead [C09.timer] [C18.gor]
 //@   wait select#1 ends with doneCh (stream context) or quit
 //@   wait send#1 the requester waits for exactly this reply before closing the channel (see Send)
 //@   requires s != nil && s.quit != nil && s.send != nil && stream != nil && doneCh != nil
@@ -1193,7 +1200,7 @@ package plugin
 
 //@ func (*gRPCBrokerServer).StartStream
 //@   nopanic [C07.total] [C20.nopanic]
-//@   bounded peer-dead [C09.timer]
+//@   bounded peer-dead [C09.timer] [C18.gor]
 //@   wait select#1 ends with doneCh (stream context) or quit
 //@   requires s.quit != nil && s.send != nil && s.recv != nil && stream != nil
 //@   modifies heap
@@ -1204,7 +1211,7 @@ package plugin
 //@ func (*gRPCBrokerClientImpl).StartStream
 //@   at call (plugin.GRPCBrokerClient).StartStream#1 assert !has_deadline(arg0)   [C07.stream] [C09.exit]
 //@   nopanic [C07.total] [C03.d] [C20.nopanic]
-//@   bounded peer-dead [C09.timer] [C03.c]
+//@   bounded peer-dead [C09.timer] [C03.c] [C18.gor]
 //@   wait select#1 ends with doneCh (stream context) or quit
 //@   requires s.quit != nil && s.send != nil && s.recv != nil && s.client != nil
 //@   modifies heap, cancelled
@@ -1331,7 +1338,7 @@ package plugin
 
 //@ func (*grpcStdioServer).StreamStdio
 //@   nopanic [C11.total]
-//@   bounded peer-dead [C03.c]
+//@   bounded peer-dead [C03.c] [C18.gor]
 //@   wait select#1 ends with the stream context (client gone) or data from the copy goroutines
 //@   requires s.stdoutCh != nil && s.stderrCh != nil && srv != nil
 //@   modifies heap_fresh
@@ -1345,7 +1352,7 @@ package plugin
 
 //@ func (*grpcStdioClient).Run
 //@   nopanic [C11.total] [C03.d]
-//@   bounded peer-dead [C03.c]
+//@   bounded peer-dead [C03.c] [C18.gor]
 //@   wait call io.Copy#1 copies from an in-memory reader into the caller-supplied sync writer; it ends when that writer accepts the chunk (caller-owned, assumed non-blocking)
 //@   requires c.log != nil && stdout != nil && stderr != nil
 //@   modifies heap_fresh, hdata, rd_done, $LOG, run_pend
@@ -1430,7 +1437,7 @@ package plugin
 //@ func (*RPCServer).ServeConn
 //@   at call yamux.Server#1 assert arg0 == conn && arg1 == nil   [C03.c]
 //@   nopanic [nospawn]
-//@   bounded peer-dead
+//@   bounded peer-dead [C18.gor]
 //@   requires conn != nil
 //@   modifies heap, yopens, yaccepts
 //@   loop#1 invariant mux != nil && rangeindex + 1 <= 2 && yaccepts[mux] == rangeindex + 2 && len(stdstream) == 2 && fresh(stdstream)
@@ -1451,7 +1458,7 @@ package plugin
 
 //@ func (*GRPCClient).Ping
 //@   nopanic [C03.d]
-//@   bounded peer-dead [C03.c]
+//@   bounded peer-dead [C03.c] [C18.gor]
 //@   requires c.Conn != nil
 //@   modifies heap_fresh
 
@@ -1498,7 +1505,7 @@ package plugin
 
 //@ func (*Client).dialer
 //@   nopanic [C03.d] [C12.total]
-//@   bounded peer-dead [C03.c]
+//@   bounded peer-dead [C03.c] [C18.gor]
 //@   requires c.config != nil && c.address != nil && c.logger != nil
 //@   requires c.grpcMuxer != nil ==> c.grpcMuxer.session != nil
 //@   modifies c.grpcMuxer, fields(c.grpcMuxerOnce), conns_open, yopens, yaccepts, creg, heap_fresh, $LOG
@@ -1509,7 +1516,7 @@ package plugin
 
 //@ func (*RPCServer).Serve
 //@   nopanic [C04.total] [C18.total]
-//@   bounded peer-dead [C03.c]
+//@   bounded peer-dead [C03.c] [C18.gor]
 //@   wait call (net.Listener).Accept#1 the accept loop ends when the listener is closed (Serve's caller closes it on every return)
 //@   requires lis != nil && !held(s.lock)
 //@   modifies heap
@@ -1518,7 +1525,7 @@ package plugin
 
 //@ func (*MuxBroker).AcceptAndServe
 //@   nopanic [C06.total]
-//@   bounded peer-dead [C09.timer]
+//@   bounded peer-dead [C09.timer] [C18.gor]
 //@   requires !held(m.Mutex)
 //@   modifies heap, pkey, ch_owner, tokens, conns_open, firstw
 //@   after call (*MuxBroker).Accept#1 bind aas: Iface := ret0
